@@ -48,7 +48,8 @@ def shards(tier):
     for i, (k, s, f, p) in enumerate(COMPS):
         if tier == "quick" and i not in QUICK:
             continue
-        out.append(dict(id=f"{s}-{f}-{p}", kind=k, solver=s, fam=f, pen=p, n=n, cost=n * (4 if k != "scalar" else 2)))
+        nn = n * 4 if f == "QuadraticSVC" else n
+        out.append(dict(id=f"{s}-{f}-{p}", kind=k, solver=s, fam=f, pen=p, n=nn, cost=nn * (4 if k != "scalar" else 2)))
     out += [dict(id=f"reweight-{p}", kind="reweight", pen=p, n=n, cost=n * 3) for p in REWEIGHT]
     return out
 
@@ -96,7 +97,11 @@ def strategy(shard):
     if shard["kind"] == "reweight":
         return reweight_case(shard["pen"])
     if shard["kind"] == "scalar":
-        return family_case(P.scalar_case(s, shard["fam"], shard["pen"], sizes=(3, 16, 1, 10), generous=False), s)
+        sizes = (8, 40, 2, 10) if shard["fam"] == "QuadraticSVC" else (3, 16, 1, 10)
+        base = P.scalar_case(s, shard["fam"], shard["pen"], sizes=sizes, generous=False)
+        if shard["fam"] == "QuadraticSVC" and s == "AndersonCD":
+            base = st.one_of(base, P.svc_extrapolation_case())
+        return family_case(base, s)
     if shard["kind"] == "group":
         return family_case(P.group_case(s, shard["fam"], generous=False), s)
     return family_case(P.multitask_case(shard["pen"], generous=False), s)
